@@ -1,0 +1,12 @@
+//go:build !verif && !js
+
+package websocket
+
+// Verification hooks (see verif_on.go). With the verif build tag off these
+// are empty and inlined away.
+
+func verifPoint(c *Conn, name string) {}
+
+func verifPool(kind, op string, obj interface{}) {}
+
+func verifUse(c *Conn, what string, enter bool, objs ...interface{}) {}
